@@ -31,6 +31,7 @@ import random
 import sys
 import time
 import types
+from common import poke  # noqa: E402
 
 import common
 from common import cN, cbool
@@ -391,7 +392,7 @@ class Watch:
 def make_thread(obj):
     rpc = _rpc()[0]
     th = rpc._RpcThread(StubCtx(), lambda: None)
-    th._rpc_object = obj
+    poke(th, '_rpc_object', obj)
     return th
 
 
@@ -828,7 +829,7 @@ def check_class(ck, tab, cache, origin, rng, demand_equal, collect):
             exotic_bucket(ck, th, obj, fq, origin, watch, rep, collect)   # fixed bucket: shipped + fixed classes
         # locked object: nothing runs whatever the name
         rpc = _rpc()[0]
-        th._locking_token = rpc.QMI_LockTokenDescriptor("other", "tok")
+        poke(th, "_locking_token", rpc.QMI_LockTokenDescriptor("other", "tok"))
         for nm in (accepted[:3] + ["nonexistent", "_name"]):
             del CALLS[:]
             if glog is not None:
@@ -837,7 +838,7 @@ def check_class(ck, tab, cache, origin, rng, demand_equal, collect):
             if kind != "locked" or CALLS or (glog is not None and glog):
                 ck.report("locked-executes:%s" % origin, "locked %s: request %r without token gives %s and executes %r"
                           % (fq, nm, kind, CALLS[:2]), rep({"name": nm, "route": "B-locked"}))
-        th._locking_token = None
+        poke(th, '_locking_token', None)
         # ---- every forwarding method of the real proxy, back through the real handler ---------------
         proxy = meta.get("proxy")
         if proxy is not None:
